@@ -159,7 +159,7 @@ static std::string gen_xml(Rng& r, int* nmesh_out, int* ntex_out, int* nmuscle_o
   std::string close;
   for (int i = 0; i < nlink; i++) {
     bodies += "<body name=\"l" + std::to_string(i) + "\" pos=\"" + (i ? "0 0 -0.3" : "0 0 1") + "\"><joint name=\"j" + std::to_string(i) + "\" type=\"hinge\" axis=\"0 1 0\" range=\"-1 1\" limited=\"true\" damping=\"0.1\"/>"
-              "<geom type=\"capsule\" size=\"0.03\" fromto=\"0 0 0 0 0 -0.3\"/><site name=\"s" + std::to_string(i) + "\" pos=\"0.05 0 -0.15\"/>";
+              "<geom name=\"lg" + std::to_string(i) + "\" type=\"capsule\" size=\"0.03\" fromto=\"0 0 0 0 0 -0.3\"/><site name=\"s" + std::to_string(i) + "\" pos=\"0.05 0 -0.15\"/>";
     close += "</body>";
   }
   bodies += close;
@@ -188,6 +188,16 @@ static std::string gen_xml(Rng& r, int* nmesh_out, int* ntex_out, int* nmuscle_o
   if (nstruct_out) *nstruct_out = nstruct;
   x = "<mujoco model=\"c33\"><compiler angle=\"radian\"" + std::string(fuse ? " fusestatic=\"true\"" : "") + "><lengthrange inttotal=\"0.6\" interval=\"0.2\" timestep=\"0.02\" tolrange=\"100\"/></compiler><option timestep=\"0.005\"/>";
   x += dflt + "<asset>" + asset + "</asset><worldbody><site name=\"sw\" pos=\"0.2 0 1.2\"/><body name=\"meshes\" pos=\"0 1 0.5\"><freejoint/>" + geoms + "<geom size=\"0.05\"/>" + xmesh + "</body>" + bodies + xworld + "</worldbody>";
+  // explicit contact pairs and excludes: every mesh geom of the "meshes" body against every link geom, i.e. many pairs with the same
+  // (body, body) signature - ties for whatever order the compiler gives them - and more than 16 of them in the larger cases
+  { Rng qp(r.next());
+    if (qp.chance(0.3) && nmesh * nlink >= 2) {
+      std::string pairs;
+      for (int i = 0; i < want_mesh; i++) for (int j = 0; j < nlink; j++) if (geoms.find("g_mesh" + std::to_string(i) + "\"") != std::string::npos && qp.chance(0.9))
+        pairs += "<pair name=\"p" + std::to_string(i) + "_" + std::to_string(j) + "\" geom1=\"g_mesh" + std::to_string(i) + "\" geom2=\"lg" + std::to_string(j) + "\" margin=\"" + f(qp.uniform(0, 0.02)) + "\"/>";
+      if (qp.chance(0.5)) for (int j = 1; j < nlink; j++) pairs += "<exclude body1=\"meshes\" body2=\"l" + std::to_string(j) + "\"/>";
+      x += "<contact>" + pairs + "</contact>";
+    } }
   if (!tendons.empty()) x += "<tendon>" + tendons + "</tendon>";
   if (!acts.empty()) x += "<actuator>" + acts + "</actuator>";
   x += "</mujoco>";
